@@ -68,6 +68,40 @@ theorem history_accepted (limit extra : Nat) (hdr : Nat → Hdr)
                       prunerThreshold := Lumina.Gen.C33.PRUNER_THRESHOLD } hdr) evs = true :=
   (run_ok evs _ (init_ok limit extra hdr) hwf).2.1
 
+/-- **answers that are neither a sample nor a timeout** (a P2p error, bytes that are not a `Block`, a block for a
+    different CID, a container that does not decode to the requested sample): what the worker does.  If the request
+    was pending, the worker stops with `FatalDaserError` — nothing else is observable, in particular no
+    `mark_as_sampled` — and is dead afterwards with no sampling in progress; otherwise nothing happens. -/
+theorem bad_answer_stops_worker (s : State) (h : Nat) (p : Share) (hs : StateOK s) :
+    (onBadAnswer s h p = (s, []) ∨
+     (onBadAnswer s h p).2 = [Tok.fatal] ∧ (onBadAnswer s h p).1.w.dead = true ∧ (onBadAnswer s h p).1.w.futs = [] ∧
+       (onBadAnswer s h p).1.store = s.store) ∧
+    (∀ x, Tok.mark x ∉ (onBadAnswer s h p).2) ∧
+    specBadAnswer (view33 s) (onBadAnswer s h p).2 = true ∧ StateOK (onBadAnswer s h p).1 := by
+  obtain ⟨h1, _, h3, h4⟩ := onBadAnswer_ok hs h p
+  refine ⟨?_, ?_, h3, h1⟩
+  · rcases h4 with h4 | h4
+    · exact Or.inl h4
+    · right; rw [h4]; exact ⟨rfl, rfl, rfl, rfl⟩
+  · intro x
+    rcases h4 with h4 | h4 <;> rw [h4] <;> simp
+
+/-- once dead the worker marks nothing, whatever happens -/
+theorem dead_worker_marks_nothing (s : State) (st : Stim) (hd : s.w.dead = true) (x : Nat) :
+    Tok.mark x ∉ (stepX s st).2 := by
+  cases st with
+  | ev e rnd =>
+    simp only [stepX, step, hd, if_true]
+    cases e <;> simp only [stepDead] <;> (try split) <;> simp
+  | badAnswer h p => simp [stepX, onBadAnswer, hd]
+
+/-- **every history, including such answers**: the C33 monitor accepts everything -/
+theorem history_with_bad_answers_accepted (limit extra : Nat) (hdr : Nat → Hdr) (sts : List Stim)
+    (hwf : ∀ st ∈ sts, StimWF st) :
+    acceptsX33 (init { limit := limit, extra := extra, maxSamples := Lumina.Gen.C33.MAX_SAMPLES_NEEDED,
+                       prunerThreshold := Lumina.Gen.C33.PRUNER_THRESHOLD } hdr) sts = true :=
+  (runX_ok sts _ (init_ok limit extra hdr) hwf).2.1
+
 /-! ### what acceptance by the monitor means, action by action -/
 
 /-- `sharesOK`, spelled out -/
@@ -166,6 +200,11 @@ example : ((run s0 h1).2.getLast?) = some [Tok.share 3 (3,0) false, Tok.result 3
 
 set_option maxRecDepth 100000 in
 example : accepts33 s0 h1 = true := by decide
+
+set_option maxRecDepth 100000 in
+/-- a bad answer for the LAST pending share of block 2 (the other three succeeded): the worker dies, block 2 is not marked -/
+example : (onBadAnswer (run s0 (h1.take 5)).1 2 (1,0)).2 = [Tok.fatal] ∧
+    (onBadAnswer (run s0 (h1.take 5)).1 2 (1,0)).1.w.dead = true := by decide
 
 /-- the monitor is not trivially accepting: a mark without a preceding successful result, a request for an
     unrecorded share, and a choice with a repeated share are all rejected -/
